@@ -38,14 +38,16 @@ EXTENDS Integers, Sequences, FiniteSets, TLC, Json
 CONSTANTS MaxBr, MaxRep, MaxTerm,   \* shape bounds
           NS, NB,                  \* scalar variables, bases
           MaxTerms,                \* bound on the total number of terms of a tree
-          Mode,                    \* "sat": tree x choice x falsification; "mut": tree x choice x tampering
+          Mode,                    \* "sat": tree x choice x falsification; "mut": tree x choice x tampering;
+                                   \* "name": tree x choice x name length x verifier's protocol-name class
           Wraps,                   \* subset of {"min", "full"}: elide / keep trivial Or and And nodes
+          NameLens,                \* lengths of the prover's protocol name (mode "name": {0, 1, 63, 64, 65, 200})
           Faults                   \* subset of 0..3: the transport of the interactive protocol fails at that round (0 = never)
 
-VARIABLES phase, tree, choice, wrap, fals, mut, fault, hist,
+VARIABLES phase, tree, choice, wrap, fals, mut, fault, nlen, hist,
           ms, mb, nt      \* bookkeeping of the canonical construction: largest scalar variable / base used, number of terms
-vars == <<phase, tree, choice, wrap, fals, mut, fault, hist, ms, mb, nt>>
-View == <<phase, tree, choice, wrap, fals, mut, fault>>
+vars == <<phase, tree, choice, wrap, fals, mut, fault, nlen, hist, ms, mb, nt>>
+View == <<phase, tree, choice, wrap, fals, mut, fault, nlen>>
 
 Max2(a, b) == IF a > b THEN a ELSE b
 NBr       == Len(tree)
@@ -93,7 +95,7 @@ MustDen == IF fault # 0 THEN "rej"
 
 -----------------------------------------------------------------------------
 Init == /\ phase = "build" /\ tree = << << <<>> >> >> /\ choice = 0 /\ wrap = "min"
-        /\ fals = NoFals /\ mut = NoMut /\ fault = 0 /\ hist = <<>> /\ ms = 0 /\ mb = 0 /\ nt = 0
+        /\ fals = NoFals /\ mut = NoMut /\ fault = 0 /\ nlen = 0 /\ hist = <<>> /\ ms = 0 /\ mb = 0 /\ nt = 0
 
 LastB == tree[NBr]
 LastR == LastB[Len(LastB)]
@@ -105,24 +107,24 @@ AddTerm ==
        /\ s <= ms + 1 /\ b <= mb + 1              \* canonical introduction order
        /\ tree' = SetLastRep(Append(LastR, [s |-> s, b |-> b]))
        /\ ms' = Max2(ms, s) /\ mb' = Max2(mb, b) /\ nt' = nt + 1
-  /\ UNCHANGED <<phase, choice, wrap, fals, mut, fault, hist>>
+  /\ UNCHANGED <<phase, choice, wrap, fals, mut, fault, nlen, hist>>
 
 NewRep ==
   /\ phase = "build" /\ Len(LastR) > 0 /\ Len(LastB) < MaxRep
   /\ tree' = [tree EXCEPT ![NBr] = Append(@, <<>>)]
-  /\ UNCHANGED <<phase, choice, wrap, fals, mut, fault, hist, ms, mb, nt>>
+  /\ UNCHANGED <<phase, choice, wrap, fals, mut, fault, nlen, hist, ms, mb, nt>>
 
 NewBranch ==
   /\ phase = "build" /\ Len(LastR) > 0 /\ NBr < MaxBr
   /\ tree' = Append(tree, << <<>> >>)
-  /\ UNCHANGED <<phase, choice, wrap, fals, mut, fault, hist, ms, mb, nt>>
+  /\ UNCHANGED <<phase, choice, wrap, fals, mut, fault, nlen, hist, ms, mb, nt>>
 
 FalsMenu == {NoFals}
        \cup (IF Mode = "sat" THEN {[k |-> "s", i |-> v, j |-> 0] : v \in 1..MaxS}
                                   \cup {[k |-> "p", i |-> b, j |-> r] : b \in 1..NBr, r \in 1..MaxRep} ELSE {})
 
 ProveRec(its, npr) ==
-  [op |-> "prove", tree |-> tree, choice |-> choice', wrap |-> wrap', fals |-> fals', fault |-> fault',
+  [op |-> "prove", tree |-> tree, choice |-> choice', wrap |-> wrap', fals |-> fals', fault |-> fault', nlen |-> nlen',
    items |-> its, nprirand |-> npr,
    truth |-> [b \in 1..NBr |-> LET ff == fals' IN
                 \A r \in Reps(b) : ~(\/ ff.k = "s" /\ \E t \in 1..Len(tree[b][r]) : tree[b][r][t].s = ff.i
@@ -134,18 +136,23 @@ Prove ==
   /\ phase = "build" /\ Len(LastR) > 0
   /\ UNCHANGED <<tree, mut, ms, mb, nt>>
   /\ LET its == ItemKinds  npr == NPriRand IN      \* evaluated once per tree, not once per successor
-     \E c \in 1..NBr, w \in Wraps, f \in FalsMenu, fl \in Faults :
-       /\ fault' = fl
+     \E c \in 1..NBr, w \in Wraps, f \in FalsMenu, fl \in Faults, nl \in NameLens :
+       /\ fault' = fl /\ nlen' = nl
        /\ (f.k = "p" => f.j <= Len(tree[f.i]))
        \* a falsified point is named once: by the first Rep carrying these terms
        /\ (f.k = "p" => \A b \in 1..NBr : \A r \in Reps(b) : tree[b][r] = tree[f.i][f.j] => <<f.i, f.j>> = <<b, r>> \/ b > f.i \/ (b = f.i /\ r > f.j))
        /\ choice' = c /\ wrap' = w /\ fals' = f
-       /\ IF Mode = "mut"
+       /\ IF Mode \in {"mut", "name"}
             THEN phase' = "tamper" /\ hist' = <<ProveRec(its, npr)>>
             ELSE phase' = "done" /\ hist' = <<ProveRec(its, npr), [op |-> "verify", must |-> Must', mustden |-> MustDen']>>
 
 Mu(k, a, b, c) == [k |-> k, a |-> a, b |-> b, c |-> c]
+\* the verifier's protocol name differs from the prover's (whose length is nlen):
+\*   a = 1 only in the last byte;  2 only in byte 65 (the first one after byte 64);  3 it is a proper prefix (the
+\*   first 64 bytes if nlen > 64, else all but the last byte);  4 it is an extension (one more byte)
+NameMenu == {Mu("name", a, 0, 0) : a \in 1..4}
 MutMenu ==
+  IF Mode = "name" THEN NameMenu ELSE
   LET NI == Len(Items) IN
        {Mu("item", i, 0, 0) : i \in 1..NI}                          \* item i altered to a different value
   \cup {Mu("trunc", i, 0, 0) : i \in 0..(NI - 1)}                   \* only the first i items kept
@@ -153,7 +160,7 @@ MutMenu ==
   \cup {Mu("truncIn", i, b, 0) : i \in 1..NI, b \in {1, 2}}
   \* the proof loses its trailing bytes, all of which are 0x00 (a short read must not be taken for zero padding)
   \cup {Mu("truncZeroTail", 0, 0, 0)}
-  \cup {Mu("name", 0, 0, 0)}                                        \* other protocol name
+  \cup NameMenu                                                     \* other protocol name
   \* forged transcripts of a prover that knows NO secret (made by the harness with the library's item layout):
   \* every branch simulated with pre-chosen sub-challenges that do not sum to the real challenge / that sum to
   \* the challenge of an earlier transcript with other commitments
@@ -173,13 +180,14 @@ MutOK(m) ==
     [] m.k = "dropRep"    -> Len(tree[m.a]) >= 2
     [] m.k = "dropBranch" -> NBr >= 2
     [] m.k = "simAll"     -> NBr >= 2
+    [] m.k = "name"       -> (m.a \in {1, 3} => nlen >= 1) /\ (m.a = 2 => nlen >= 65)
     [] m.k = "swapBranch" -> tree[m.a] # tree[m.a + 1]
     [] m.k = "swapRep"    -> m.b + 1 <= Len(tree[m.a]) /\ tree[m.a][m.b] # tree[m.a][m.b + 1]
     [] OTHER -> TRUE
 
 Tamper ==
   /\ phase = "tamper"
-  /\ UNCHANGED <<tree, choice, wrap, fals, fault, ms, mb, nt>>
+  /\ UNCHANGED <<tree, choice, wrap, fals, fault, nlen, ms, mb, nt>>
   /\ \E m \in MutMenu \cup {NoMut} :
        /\ MutOK(m) /\ mut' = m
        /\ hist' = hist \o <<[op |-> "tamper", m |-> m], [op |-> "verify", must |-> Must', mustden |-> MustDen']>>
